@@ -2,6 +2,7 @@ package props
 
 import (
 	"fmt"
+	"sort"
 
 	"github.com/RoaringBitmap/roaring/v2"
 	segment "github.com/blevesearch/scorch_segment_api/v2"
@@ -61,6 +62,81 @@ func checkThesauri(seg segment.Segment, exp *ref.Content, a *run.Acc, where stri
 			}
 		}
 	}
+	return thesaurusReuse(ts, exp, a, where)
+}
+
+// thesaurusReuse: every ordered pair of (thesaurus, term) lookups, the second one
+// passing the first one's SynonymsList and SynonymsIterator back in (after the first
+// iterator was read partially or completely), with and without an exclusion bitmap.
+func thesaurusReuse(ts segment.ThesaurusSegment, exp *ref.Content, a *run.Acc, where string) string {
+	type look struct{ name, term string }
+	var looks []look
+	for _, name := range []string{"s1", "s2", "zz"} {
+		for _, term := range []string{"a", "b", "zz"} {
+			looks = append(looks, look{name, term})
+		}
+	}
+	var oneDoc *roaring.Bitmap
+	if exp.Count > 0 {
+		oneDoc = roaring.BitmapOf(uint32(exp.Count - 1))
+	}
+	for _, l1 := range looks {
+		for _, l2 := range looks {
+			for _, except := range []*roaring.Bitmap{nil, oneDoc} {
+				for _, consume := range []int{0, 1, -1} {
+					th1, err := ts.Thesaurus(l1.name)
+					if err != nil {
+						return fmt.Sprintf("%s: Thesaurus(%q): %v", where, l1.name, err)
+					}
+					sl, err := th1.SynonymsList([]byte(l1.term), nil, nil)
+					if err != nil {
+						return fmt.Sprintf("%s: SynonymsList(%q,%q): %v", where, l1.name, l1.term, err)
+					}
+					it := sl.Iterator(nil)
+					for k := 0; consume < 0 || k < consume; k++ {
+						s, err := it.Next()
+						if err != nil {
+							return fmt.Sprintf("%s: iterating (%q,%q): %v", where, l1.name, l1.term, err)
+						}
+						if s == nil {
+							break
+						}
+					}
+					th2, err := ts.Thesaurus(l2.name)
+					if err != nil {
+						return fmt.Sprintf("%s: Thesaurus(%q): %v", where, l2.name, err)
+					}
+					sl2, err := th2.SynonymsList([]byte(l2.term), except, sl)
+					if err != nil {
+						return fmt.Sprintf("%s: lookup (%q,%q) reusing the list of (%q,%q): %v", where, l2.name, l2.term, l1.name, l1.term, err)
+					}
+					it2 := sl2.Iterator(it)
+					var got []ref.SynPair
+					for {
+						s, err := it2.Next()
+						if err != nil {
+							return fmt.Sprintf("%s: lookup (%q,%q) reusing the list and iterator of (%q,%q) (after %d calls): iteration error %v", where, l2.name, l2.term, l1.name, l1.term, consume, err)
+						}
+						if s == nil {
+							break
+						}
+						got = append(got, ref.SynPair{Syn: s.Term(), Doc: s.Number()})
+					}
+					sort.Slice(got, func(x, y int) bool {
+						if got[x].Syn != got[y].Syn {
+							return got[x].Syn < got[y].Syn
+						}
+						return got[x].Doc < got[y].Doc
+					})
+					a.Eval(1)
+					want := filterPairs(exp.Thes[l2.name][l2.term], except)
+					if fmt.Sprint(got) != fmt.Sprint(want) && !(len(got) == 0 && len(want) == 0) {
+						return fmt.Sprintf("%s: lookup (%q,%q,except %v) reusing the list and iterator of (%q,%q) (after %d calls): got %v want %v", where, l2.name, l2.term, except, l1.name, l1.term, consume, got, want)
+					}
+				}
+			}
+		}
+	}
 	return ""
 }
 
@@ -68,7 +144,7 @@ func init() {
 	run.Register(&run.Def{
 		ID:          "C12",
 		Level:       "exploration",
-		Rule:        "bounded-exhaustive: every batch of 1..3 documents where each document is an ordinary text document or a synonym document for thesaurus s1/s2 with one of 7 entry shapes (a->[x]; a->[x,y]; b->[y]; two entries in both enumeration orders; reversed synonym list; duplicate synonym), at least one synonym document; both build tags; in-memory and persisted+re-opened. Oracle: thesaurus keys ascending == defined terms, Contains agrees, and for every (thesaurus in {s1,s2,absent,ordinary field,_id}, term in {a,b,absent,empty}, EVERY exclusion bitmap) the (synonym, doc) pairs == reference, each once; synonym fields have empty ordinary dictionaries and ordinary fields are unaffected (full postings/stored dump). Non-trivial = >= 2 synonym documents.",
+		Rule:        "bounded-exhaustive: every batch of 1..3 documents where each document is an ordinary text document or a synonym document for thesaurus s1/s2 with one of 7 entry shapes (a->[x]; a->[x,y]; b->[y]; two entries in both enumeration orders; reversed synonym list; duplicate synonym), at least one synonym document; both build tags; in-memory and persisted+re-opened. Oracle: thesaurus keys ascending == defined terms, Contains agrees, and for every (thesaurus in {s1,s2,absent,ordinary field,_id}, term in {a,b,absent,empty}, EVERY exclusion bitmap) the (synonym, doc) pairs == reference, each once; plus every ordered pair of lookups over 3 thesaurus names x 3 terms where the second lookup is handed the first one's SynonymsList and SynonymsIterator as preallocation (after 0 / 1 / all Next calls), with and without exclusion; synonym fields have empty ordinary dictionaries and ordinary fields are unaffected (full postings/stored dump). Non-trivial = >= 2 synonym documents.",
 		Assumptions: batchAssumptions,
 		Bounds:      map[string]string{"quick": "N<=3 (15 document kinds), all exclusion bitmaps", "thorough": "N<=3 plus N=4 over a 5-kind menu"},
 		Flavours:    plainAndVec,
